@@ -5,6 +5,7 @@
   optimiser output `res` — every theorem holds for ALL of their values unless a hypothesis says otherwise.
 -/
 import Proofs.C18_Lemmas
+import Proofs.C18_Gen
 import Mathlib.Data.Rat.Floor
 import Mathlib.Analysis.SpecialFunctions.Log.Basic
 
@@ -644,6 +645,90 @@ theorem stress_second_row_only (full cdiff : Bool) (τ τ' : M3 K) (h : τ.r1 = 
 theorem stress_symmetric_row_eq_col (full cdiff : Bool) (τ : M3 K) (h : τ.transpose = τ) (x : List K) (d : List (V3 K)) :
     stressEnergyT full cdiff τ.transpose x d = stressEnergyT full cdiff τ x d := by
   rw [h]
+
+
+/-! ## the clauses stated about the SOURCE's own definitions
+
+`Gen.gen_*` (`Atomman/Generated/PNEnergy.lean`) is regenerated with `ast` from `SDVPN.py` / `GammaSurface.py` on every run;
+`Proofs/C18_Gen.lean` proves each equal to the hand model.  The theorems below restate the property's clauses directly about the
+generated definitions, so they are re-checked against what the source says now. -/
+
+/-- *The total energy is the sum of its documented terms, each equal to its formula*: `total_energy` of the source is the sum
+    of the six term methods of the source (in the source's order), and each of those is the model's formula — misfit sum,
+    elastic double sum with the χ/ψ kernel, long-range logarithm, both stress expressions reading the second row of `tau`,
+    the nonlocal sum over any number of `α_m`, the surface contraction — for every profile, grid, setting and flag. -/
+theorem source_total_is_sum_of_formulas (lg : K → K) (gam : V3 K → K) (s : Settings K) (τ : M3 K) (x : List K) (d : List (V3 K)) :
+    Gen.gen_total_energy lg gam s τ x d
+      = Gen.gen_misfit_energy gam s.T x d + Gen.gen_elastic_energy lg s.pi s.Kt s.cdiffelastic x d
+        + Gen.gen_longrange_energy s.pi s.logL s.Kt s.burgers + Gen.gen_stress_energy s.fullstress s.cdiffstress τ x d
+        + Gen.gen_nonlocal_energy s.αs x d + Gen.gen_surface_energy s.cdiffsurface s.β x d ∧
+    Gen.gen_misfit_energy gam s.T x d = misfitEnergy gam s.T x d ∧
+    Gen.gen_elastic_energy lg s.pi s.Kt s.cdiffelastic x d = elasticEnergy lg s.pi s.Kt s.cdiffelastic x d ∧
+    Gen.gen_longrange_energy s.pi s.logL s.Kt s.burgers = longrangeEnergy s.pi s.logL s.Kt s.burgers ∧
+    Gen.gen_stress_energy s.fullstress s.cdiffstress τ x d = stressEnergy s.fullstress s.cdiffstress τ.r1 x d ∧
+    Gen.gen_nonlocal_energy s.αs x d = nonlocalEnergy s.αs x d ∧
+    Gen.gen_surface_energy s.cdiffsurface s.β x d = surfaceEnergy s.cdiffsurface s.β x d :=
+  ⟨rfl, gen_misfit_eq_model .., gen_elastic_eq_model .., gen_longrange_eq_model .., gen_stress_eq_model .., gen_nonlocal_eq_model ..,
+    gen_surface_eq_model ..⟩
+
+/-- *… the elastic term being a symmetric quadratic form of the dislocation density*: the source's elastic term IS the
+    symmetric bilinear form `elasticB` on the diagonal, evaluated at the source's own density. -/
+theorem source_elastic_quadratic (lg : K → K) (pi : K) (Kt : M3 K) (hK : Kt.transpose = Kt) (cd : Bool) (x : List K) (d : List (V3 K)) :
+    let ρ := (Gen.gen_disldensity cd x d).2
+    Gen.gen_elastic_energy lg pi Kt cd x d
+        = elasticB lg pi (gridStep x) Kt ρ.length (fun i => ρ.getD i v3zero) (fun i => ρ.getD i v3zero) ∧
+      ∀ n (ρ σ : Nat → V3 K), elasticB lg pi (gridStep x) Kt n ρ σ = elasticB lg pi (gridStep x) Kt n σ ρ := by
+  refine ⟨?_, fun n => elasticB_symm lg pi (gridStep x) Kt hK n⟩
+  rw [gen_elastic_eq_model, gen_disldensity_eq_model]
+  rfl
+
+/-- *… unchanged by a rigid shift of the disregistry*: for the source's density and the source's elastic term. -/
+theorem source_shift_invariant (lg : K → K) (pi : K) (Kt : M3 K) (cd : Bool) (x : List K) (d : List (V3 K)) (c : V3 K) :
+    Gen.gen_disldensity cd x (d.map (· + c)) = Gen.gen_disldensity cd x d ∧
+    Gen.gen_elastic_energy lg pi Kt cd x (d.map (· + c)) = Gen.gen_elastic_energy lg pi Kt cd x d := by
+  simp only [gen_disldensity_eq_model, gen_elastic_eq_model, density_shift_invariant, elastic_shift_invariant, and_self]
+
+/-- each of the seven methods with the arguments resolved by the SOURCE's default block (`gen_args`), term by term from the source:
+    the value of the model's `Obj.call` for every subset of `(x, disregistry)` (stress row `tau[1, :]`). -/
+theorem source_call (lg : K → K) (gam : V3 K → K) (o : Obj K) (τ : M3 K) (hτ : o.s.τ1 = τ.r1) (xo : Option (List K))
+    (dO : Option (List (V3 K))) :
+    let a := Gen.gen_args o.x o.d xo dO
+    Gen.gen_total_energy lg gam o.s τ a.1 a.2 = o.call lg gam .total xo dO ∧
+    Gen.gen_misfit_energy gam o.s.T a.1 a.2 = o.call lg gam .misfit xo dO ∧
+    Gen.gen_elastic_energy lg o.s.pi o.s.Kt o.s.cdiffelastic a.1 a.2 = o.call lg gam .elastic xo dO ∧
+    Gen.gen_stress_energy o.s.fullstress o.s.cdiffstress τ a.1 a.2 = o.call lg gam .stress xo dO ∧
+    Gen.gen_nonlocal_energy o.s.αs a.1 a.2 = o.call lg gam .nonlocal xo dO ∧
+    Gen.gen_surface_energy o.s.cdiffsurface o.s.β a.1 a.2 = o.call lg gam .surface xo dO ∧
+    Gen.gen_disldensity o.s.cdiffelastic a.1 a.2 = o.density xo dO o.s.cdiffelastic := by
+  simp only [gen_args_eq_model, gen_total_eq_model lg gam o.s τ hτ, gen_misfit_eq_model, gen_elastic_eq_model, gen_stress_eq_model,
+    gen_nonlocal_eq_model, gen_surface_eq_model, gen_disldensity_eq_model, stressEnergyT, ← hτ]
+  exact ⟨rfl, rfl, rfl, rfl, rfl, rfl, rfl⟩
+
+/-- *solving leaves the two end disregistries fixed*, from the source's `decompose`: the `first` / `last` rows it hands to
+    `recompose` are the end rows of the guess, and they are the end rows of what `solve` stores, for every optimiser output. -/
+theorem source_solve_ends (res : List K) (d : List (V3 K)) (hd : d ≠ []) :
+    (solveResult res d) = recompose res (Gen.gen_decompose d).2.1 (Gen.gen_decompose d).2.2 ∧
+    (Gen.gen_decompose d).1 = decompose d ∧
+    (solveResult res d).head? = d.head? ∧ (solveResult res d).getLast? = d.getLast? := by
+  rw [gen_decompose_eq_model]
+  exact ⟨rfl, rfl, solve_ends_fixed res d hd⟩
+
+section
+variable [FloorRing K]
+/-- *periodic in both shift vectors*, with the wrap the SOURCE performs (`wrap_cushion`, one element): the blended value at the
+    source's wrapped coordinates is unchanged by integer periods, for every interpolant and cushion. -/
+theorem source_wrap_periodic (f : K → K → K) (c1 c2 a1 a2 : K) (n1 n2 : Int) :
+    evalE f c1 c2 (Gen.gen_wrap_cushion Int.floor (a1 + n1) c1) (Gen.gen_wrap_cushion Int.floor (a2 + n2) c2)
+      = evalE f c1 c2 (Gen.gen_wrap_cushion Int.floor a1 c1) (Gen.gen_wrap_cushion Int.floor a2 c2) := by
+  simp only [gen_wrap_cushion_eq_model, wrap_add_int]
+end
+
+/-- *those conversions are mutual inverses*, with the source's `a12_to_pos`: `pos_to_a12` of the model undoes it and the
+    out-of-plane assertion passes, for any box and any crystal vectors whose Cartesian images are not parallel. -/
+theorem source_a12_pos_inverse (B : M3 K) (v1 v2 : V3 K) (h : V3.cross (cartOf v1 B) (cartOf v2 B) ≠ v3zero) (a1 a2 : K) :
+    posToA12? (cartOf v1 B) (cartOf v2 B) (Gen.gen_a12_to_pos B v1 v2 a1 a2) = some (a1, a2) := by
+  rw [gen_a12_to_pos_eq_model]
+  exact (a12_pos_inverse (cartOf v1 B) (cartOf v2 B) h).1 (a1, a2)
 
 
 /-! ## non-vacuity: the hypotheses of `E_interpolates` are satisfiable with non-constant data -/
